@@ -18,8 +18,8 @@ ID = "C06"
 CASES = {"quick": 2400, "thorough": 30000}
 FLOOR = {"quick": 1800, "thorough": 22000}
 FLOOR_COUNTERS = {
-    "quick": {"steps_judged": 80000, "sparse_steps_pruned": 10000, "sparse_steps_pruned_low_switch": 50, "clock_scripted_fits": 3000, "steered_clock_reached_target": 800, "warm_links": 500, "estimators_with_a_past": 2500, "small_unit_cases": 120, "configured_not_by_constructor": 3000, "non_default_containers": 3000, "carried_by:deepcopy": 150, "carried_by:pickle": 150, "more_than_2048_points": 5, "unreached_thresholds_set": 3000},
-    "thorough": {"steps_judged": 600000, "sparse_steps_pruned": 80000, "clock_scripted_fits": 15000, "steered_clock_reached_target": 4000, "warm_links": 3000, "estimators_with_a_past": 30000, "small_unit_cases": 1500, "configured_not_by_constructor": 40000, "non_default_containers": 40000, "carried_by:deepcopy": 2000, "carried_by:pickle": 2000, "more_than_2048_points": 70, "unreached_thresholds_set": 40000},
+    "quick": {"switching_point_changed_between_links": 800, "steps_judged": 80000, "sparse_steps_pruned": 10000, "sparse_steps_pruned_low_switch": 50, "clock_scripted_fits": 3000, "steered_clock_reached_target": 800, "warm_links": 500, "estimators_with_a_past": 2500, "small_unit_cases": 120, "configured_not_by_constructor": 3000, "non_default_containers": 3000, "carried_by:deepcopy": 150, "carried_by:pickle": 150, "more_than_2048_points": 5, "unreached_thresholds_set": 3000},
+    "thorough": {"switching_point_changed_between_links": 10000, "steps_judged": 600000, "sparse_steps_pruned": 80000, "clock_scripted_fits": 15000, "steered_clock_reached_target": 4000, "warm_links": 3000, "estimators_with_a_past": 30000, "small_unit_cases": 1500, "configured_not_by_constructor": 40000, "non_default_containers": 40000, "carried_by:deepcopy": 2000, "carried_by:pickle": 2000, "more_than_2048_points": 70, "unreached_thresholds_set": 40000},
 }
 RULE = (
     "case = point set (uniform / strongly clustered / duplicated / integer lattice / gauss), start int|'random', request "
@@ -90,6 +90,10 @@ def gen(rng, tier, index):
     for _ in range(3 if huge else (5 if tier == "quick" else 6)):
         if rng.random() < 0.5:
             settings.append({"full_fraction": float(gens.pick(rng, EXPLICIT))})
+            if len(chain) > 1:
+                # the switching point is changed between two links of a warm chain (from a value that never prunes to
+                # one that does, or the other way round): whatever it is, every link selects what FPS selects
+                settings[-1]["ff_first_link"] = float(gens.pick(rng, (1e-6, 1e-6, 1.0, 0.5)))
         else:
             s = {"full_fraction": None, "clock": gens.pick(rng, CLOCKS), "n_trial_calculation": int(gens.pick(rng, (1, 2, 4, 7))), "clock_seed": int(rng.integers(1 << 30))}
             if s["clock"] == "steer":
@@ -159,6 +163,10 @@ def _fit_voronoi(case, setting, j):
             if clock is not None:
                 clock.est = est
         est.n_to_select = nts
+        if setting.get("ff_first_link") is not None and setting.get("full_fraction") is not None:
+            est.full_fraction = setting["ff_first_link"] if li == 0 else setting["full_fraction"]
+            if li > 0:
+                j.note("switching_point_changed_between_links")
         if clock is not None:
             with rt.patched(vmod, "time", clock):
                 j.lib("fit", sel.fit, est, X, None, spec, warm=li > 0)
